@@ -441,12 +441,21 @@ def invalidate(draw, p, r, op):
         r["path"], r["bit"], r["count"] = [], None, None
         if t["type"] in INT_BITS:
             r["value"] = draw(st.sampled_from([1 << 70, "text", None]))
+            if draw(st.integers(0, 2)) == 0:
+                # one bit takes one truth value: no value, an empty list and two values are not that
+                r["bit"] = draw(st.integers(0, INT_BITS[t["type"]] - 1))
+                r["value"] = draw(st.sampled_from([None, [], [True, False]]))
         elif t["type"] == "BOOL":
-            return None
+            r["value"] = None
         elif t["type"] == "DWORD":
-            r["idx"] = [0]
-            r["count"] = 32
-            r["value"] = 5
+            if draw(st.booleans()):
+                r["idx"] = [draw(st.integers(0, p.n_elements(t) * 32 - 1))]
+                r["count"] = draw(st.sampled_from([None, 1]))
+                r["value"] = draw(st.sampled_from([None, []]))
+            else:
+                r["idx"] = [0]
+                r["count"] = 32
+                r["value"] = 5
         elif t["type"] in ("REAL", "LREAL"):
             r["value"] = draw(st.sampled_from(["text", None]))
         elif p.udts[t["type"]].get("string") is not None:
